@@ -367,7 +367,8 @@ let cmd_ci (graph_file : string) =
   (try while true do let l = input_line stdin in if l <> "" then rules := bytes_of_hex l :: !rules done with End_of_file -> ());
   let rules = List.rev !rules in
   List.iteri (fun i e ->
-      Printf.printf "ENTRY %d id=%s query=%s outcome=%s\n" i (hexb e.e_rule.r_id) (hexb e.e_rule.r_query)
+      Printf.printf "ENTRY %d id=%s query=%s infrag=%s outcome=%s\n" i (hexb e.e_rule.r_id) (hexb e.e_rule.r_query)
+        (match parse_query e.e_rule.r_query with Some aq -> b01 (in_fragment (flatten_query aq) g) | None -> "1")
         (match e.e_outcome with
          | SyntaxError -> "syntaxerror"
          | Answer a -> "answer:" ^ String.concat ";" (List.map (fun t -> String.concat "|" (List.map pr_entity t)) a.a_results)))
